@@ -20,19 +20,34 @@ theorem noneOrDir_of_isDir {fs : Fs} {p : Path} (h : fs.isDir p = true) : NoneOr
   obtain ⟨x, hx, hk⟩ := Fs.isDir_iff.1 h
   intro y hy; rw [hx] at hy; cases hy; exact hk
 
-/-- Every proper prefix of `cs` below `D` is absent or a directory. -/
+/-- No proper prefix of `cs` below `D` is a symlink (files are allowed: resolution through them
+fails with ENOTDIR and nothing happens). -/
 def CleanTo (fs : Fs) (D : Path) (cs : List Str) : Prop :=
-  ∀ pre, pre <+: cs → pre ≠ cs → NoneOrDir (fs.node (D ++ pre))
+  ∀ pre, pre <+: cs → pre ≠ cs → NotLink (fs.node (D ++ pre))
 
-/-- … and `D ++ cs` itself too. -/
+/-- … and `D ++ cs` itself is no symlink either. -/
+def CleanFullL (fs : Fs) (D : Path) (cs : List Str) : Prop :=
+  ∀ pre, pre <+: cs → NotLink (fs.node (D ++ pre))
+
+/-- Every prefix of `cs` below `D`, `D ++ cs` included, is absent or a directory. -/
 def CleanFull (fs : Fs) (D : Path) (cs : List Str) : Prop :=
   ∀ pre, pre <+: cs → NoneOrDir (fs.node (D ++ pre))
 
-theorem CleanFull.to {fs : Fs} {D : Path} {cs : List Str} (h : CleanFull fs D cs) : CleanTo fs D cs :=
+theorem CleanFull.toL {fs : Fs} {D : Path} {cs : List Str} (h : CleanFull fs D cs) : CleanFullL fs D cs :=
+  fun pre hp => (h pre hp).notLink
+
+theorem CleanFullL.to {fs : Fs} {D : Path} {cs : List Str} (h : CleanFullL fs D cs) : CleanTo fs D cs :=
   fun pre hp _ => h pre hp
+
+theorem CleanFull.to {fs : Fs} {D : Path} {cs : List Str} (h : CleanFull fs D cs) : CleanTo fs D cs :=
+  h.toL.to
 
 theorem CleanFull.prefix {fs : Fs} {D : Path} {cs pre : List Str} (h : CleanFull fs D cs)
     (hp : pre <+: cs) : CleanFull fs D pre :=
+  fun q hq => h q (hq.trans hp)
+
+theorem CleanFullL.prefix {fs : Fs} {D : Path} {cs pre : List Str} (h : CleanFullL fs D cs)
+    (hp : pre <+: cs) : CleanFullL fs D pre :=
   fun q hq => h q (hq.trans hp)
 
 theorem prefix_append_cases {D pre cs : List Str} (h : pre <+: D ++ cs) :
@@ -58,7 +73,7 @@ theorem resolve_clean {fs : Fs} {D : Path} {cs trail : List Str} {follow : Bool}
     (fun pre hp _ hne => by
       rw [List.nil_append]
       rcases prefix_append_cases hp with h1 | ⟨pre', rfl, h1⟩
-      · exact noneOrDir_of_isDir (hD.dirs pre h1)
+      · exact (noneOrDir_of_isDir (hD.dirs pre h1)).notLink
       · exact hc pre' h1 (fun e => hne (by rw [e])))
     (by simpa using hfin) p h
   simpa using this
